@@ -7,7 +7,7 @@ def q(s): return '"' + s.replace('"', '""') + '"'
 def lst(xs): return "[" + "; ".join(xs) + "]"
 def opt(x): return "None" if x is None else "(Some %s)" % x
 
-BIN = {ast.Add: "Add", ast.Sub: "Sub", ast.Mult: "Mul", ast.Div: "Div", ast.Pow: "Pow", ast.Mod: "Mod"}
+BIN = {ast.Add: "Add", ast.Sub: "Sub", ast.Mult: "Mul", ast.Div: "Div", ast.Pow: "Pow", ast.Mod: "Mod", ast.BitAnd: "BitAnd"}
 CMP = {ast.Lt: "CLt", ast.LtE: "CLtE", ast.Gt: "CGt", ast.GtE: "CGtE", ast.Eq: "CEq", ast.NotEq: "CNotEq",
        ast.Is: "CIs", ast.IsNot: "CIsNot", ast.In: "CIn", ast.NotIn: "CNotIn"}
 
@@ -75,6 +75,9 @@ class Ser:
             return "SRaise %s" % q(exc)
         if isinstance(s, ast.Try) and not s.finalbody and not s.orelse and len(s.handlers) == 1:
             return "STry %s %s" % (self.stmts(s.body), self.stmts(s.handlers[0].body))
+        if isinstance(s, ast.With) and len(s.items) == 1 and (s.items[0].optional_vars is None or isinstance(s.items[0].optional_vars, ast.Name)):
+            it = s.items[0]
+            return "SWith %s %s %s" % (self.expr(it.context_expr), opt(q(it.optional_vars.id)) if it.optional_vars is not None else "None", self.stmts(s.body))
         if isinstance(s, ast.Pass): return "SPass"
         if isinstance(s, (ast.Import, ast.ImportFrom)): return "SPass"   # names resolve through the function environment
         if isinstance(s, ast.Assert): return "SAssert %s" % self.expr(s.test)
